@@ -38,6 +38,10 @@ pub struct Ctx {
     pub samples: Vec<String>,
     /// oracles are off while this is set (history replay inside exhaustive exploration)
     pub quiet: bool,
+    /// C17: schedule prefix forced on the next `conc` request; decisions and outcome of the last one
+    pub forced_schedule: Vec<usize>,
+    pub last_decisions: Vec<(usize, usize, usize)>,
+    pub last_outcome: Option<(Vec<Vec<String>>, String)>,
 }
 impl Ctx {
     pub fn count(&mut self, k: &str) {
